@@ -246,6 +246,7 @@ class SimDevice:
             self.sign = {"path": body[:plen], "parts": {2: [], 4: [], 8: []}, "chunks": {2: [], 4: [], 8: []}}
             if len(rest) == 4:
                 self.sign["input"] = le(rest)
+                self.sign["input_bytes"] = rest
                 self.sign["expect"] = 2
                 self.sign["requested"] = self.next_request()
                 return resp([CLA, 0x02, 0x02, self.sign["requested"]])
@@ -329,7 +330,7 @@ class SimDevice:
         edl = le(tx[5:7])
         btc = tx[7:total]
         ed = tx[total:total + edl]
-        out = {"path": s["path"], "input": s.get("input"), "mode": mode, "tx": btc, "extradata": ed,
+        out = {"path": s["path"], "input": s.get("input"), "input_bytes": s.get("input_bytes"), "mode": mode, "tx": btc, "extradata": ed,
                "receipt": s["parts"][4], "announced_total": total, "edl": edl}
         pr = s["parts"][8]
         nodes = []
